@@ -288,7 +288,9 @@ class RelEval:
             if e.id in env:
                 return env[e.id]
             if e.id == self.task_param:
-                return {(): list(UNCOND)}
+                if all(d.kind in ('param', 'entry') for d in self.flow.defs_of(e.id)):
+                    return {(): list(UNCOND)}
+                return self.var(e.id, at, e)        # `while parent is not None: ..; parent = parent.parent`
             return self.var(e.id, at, e)
         if isinstance(e, ast.Attribute) and e.attr in RELS:
             return _ext(self.ev(e.value, env, at), e.attr)
@@ -436,11 +438,15 @@ class RelEval:
             raise Unknown(node, f"`{name}` has no local definition")
         seen, work, contribs = set(), list(start), []
         closure = False
+        base: Paths = {}
         while work:
             d = work.pop()
             if id(d) in seen:
                 continue
             seen.add(id(d))
+            if d.kind == 'param' and name == self.task_param:
+                base = {(): list(UNCOND)}
+                continue
             if d.kind == 'assign' and d.value is not None:
                 if match(f"{name}.parent", d.value):
                     closure = True      # t = t.parent inside a loop: climbs the ancestors
@@ -466,7 +472,7 @@ class RelEval:
                 if arg is None:
                     raise Unknown(n, "mutation without argument")
                 contribs.append((cn, arg, n.func.attr in ('append', 'add', 'insert')))
-        out: Paths = {}
+        out: Paths = dict(base)
         for cn, expr, single in contribs:
             out = _union(out, self.contribution(cn, expr, at, single))
         if closure:
@@ -486,6 +492,8 @@ class RelEval:
         for t, p in self.cfg.conditions(cn):
             if (id(t), p) in base:
                 continue
+            if not p and any(isinstance(w, ast.While) and w.test is t for w in walk_no_nested(self.f.node)):
+                continue        # exit condition of a while loop that lies behind: says nothing about what the loop collected
             pend += self._apply_cond(t, p, env)
         return self._finish(self.ev(expr, env, cn), pend, env, cn)
 
@@ -532,6 +540,22 @@ def recognise_fold(ctx, f: Func, store_stmt: ast.stmt, value: ast.AST) -> Fold:
             if isinstance(other, ast.Name) and other.id == nt[0].id:
                 fo.default = ex.expand(when_none, sn)
                 value = other
+    if isinstance(value, ast.IfExp) and fo.default is None:
+        # `min(L) if len(L) > 0 else D` / `D if not L else min(L)`: the value for a node without links as a conditional expression
+        et = empty_test(value.test, True)
+        if et is None:
+            t_, pol_ = value.test, True
+            while isinstance(t_, ast.UnaryOp) and isinstance(t_.op, ast.Not):
+                t_, pol_ = t_.operand, not pol_
+            if isinstance(t_, (ast.Name, ast.ListComp)):
+                et = (t_, not pol_)             # `if bounds` / `if not bounds`
+        if et:
+            when_empty, other = (value.body, value.orelse) if et[1] else (value.orelse, value.body)
+            xo, xc = ex.expand(other, sn), ex.expand(et[0], sn)
+            if isinstance(xo, ast.Call) and isinstance(xo.func, ast.Name) and xo.func.id in ('max', 'min') and len(xo.args) == 1 \
+                    and not xo.keywords and same(xo.args[0], xc):
+                fo.default = ex.expand(when_empty, sn)
+                return _fold_expr(xo, fo, value)
     if not isinstance(value, ast.Name):
         v = ex.expand(value, sn)
         return _fold_expr(v, fo, value)
@@ -770,9 +794,12 @@ def nonneg(e: ast.AST) -> bool:
 def bind_args(call: ast.Call, callee: Func) -> Dict[str, ast.AST]:
     """callee parameter -> argument expression (receiver excluded)"""
     params = list(callee.params)
-    if callee.kind in ('method', 'getter', 'setter', 'classmethod') and params:
-        params = params[1:]
     out = {}
+    if callee.kind in ('method', 'getter', 'setter', 'classmethod') and params:
+        # the receiver is bound too (`start.connect_to(end, units)`: self <- start)
+        if callee.kind == 'method' and isinstance(call.func, ast.Attribute):
+            out[params[0]] = call.func.value
+        params = params[1:]
     for p, a in zip(params, call.args):
         if not isinstance(a, ast.Starred):
             out[p] = a
